@@ -172,6 +172,31 @@ Definition peer_of (r : reg) (id : N) : option mpeer :=
   end.
 
 (* ------------------------------------------------------------------ *)
+(* The queue holds NAMES, not contents. An entry is the path of a file: the paths of the configured `filename`
+   list as they are (MrtFileIn::run sends them to the queue before the loop starts), and for the HTTP endpoint
+   update_path joined with the relative path of the request, canonicalised (api.rs, Processor::queue) - a path of
+   plain components below update_path names itself, every component of it, not its last one. When an entry's turn
+   comes the loop opens whatever the path holds THEN and imports it - whether or not the same path, or the same
+   octets under another path, went through the queue before (the loop keeps nothing about the files it has taken;
+   `processed` in the outer loop is a log). fstore = the directory tree as the unit sees it: the binding written
+   last for a path is what the path holds; a path that holds nothing readable is FBad. *)
+Definition mpath := list N.
+Definition fstore := list (mpath * mfile).
+Definition store_write (fsys : fstore) (p : mpath) (f : mfile) : fstore := (p, f) :: fsys.
+Fixpoint resolve (fsys : fstore) (p : mpath) : mfile :=
+  match fsys with
+  | [] => FBad
+  | e :: rest => if bool_decide (e.1 = p) then e.2 else resolve rest p
+  end.
+Definition queue_files (fsys : fstore) (ps : list mpath) : list mfile := map (resolve fsys) ps.
+
+(* the unit's register and the RIB behind its gate; one queue entry's effect on them *)
+Definition qstate := (reg * rib)%type.
+Definition entry_step (parent : N) (fsys : fstore) (s : qstate) (p : mpath) : qstate :=
+  let '(r1, us, _) := process_file parent s.1 (resolve fsys p) in
+  (r1, fold_left rib_apply us s.2).
+
+(* ------------------------------------------------------------------ *)
 (* The property's reading: routes belong to the peer the file names. *)
 Definition irib := gmap (N * N * mpeer) (bool * N).     (* (family, prefix, peer) -> (active, attributes) *)
 
